@@ -708,6 +708,26 @@ def micro_exon_sibling_locus(w, gid, chrom, p, strand, side="after"):
     return g, p + span
 
 
+def mixed_strand_gene_locus(w, gid, chrom, p):
+    """A reference gene whose transcripts lie on BOTH strands (legal, e.g. mod(mdg4)): a '+' and a '-' transcript with exons at identical
+    coordinates, plus an ordinary '+' gene that shares one exon with the '+' transcript."""
+    ex = [(p, p + 300), (p + 900, p + 1200), (p + 1900, p + 2300)]
+    g = Gene(gid, chrom, "+")
+    g.transcripts.append(Transcript(gid + ".fwd", gid, chrom, "+", list(ex), True, "mixed-strand-gene"))
+    g.transcripts.append(Transcript(gid + ".rev", gid, chrom, "-", list(ex), True, "mixed-strand-gene"))
+    for intr in g.transcripts[0].introns:
+        w.plant_sites(chrom, intr, "+")
+    o = Gene(gid + "O", chrom, "+")
+    o.transcripts.append(Transcript(gid + "O.t1", gid + "O", chrom, "+", [ex[2], (p + 3000, p + 3300), (p + 3900, p + 4300)], True, "shares-an-exon-with-the-mixed-gene"))
+    for intr in o.transcripts[0].introns:
+        w.plant_sites(chrom, intr, "+")
+    w.genes += [g, o]
+    for t in (g.transcripts[0], o.transcripts[0]):
+        for _ in range(5):
+            w.make_read(chrom, list(t.exons), polya=30, truth={"src": t.id, "class": "exact"})
+    return [g, o], p + 4300
+
+
 def near_site_novel_locus(w, gid, chrom, p, strand):
     """t1 = e1..e5, t2 = e1-e3-e5 (annotated); the unannotated isoform e1-e2-e3-e5' is a new combination of annotated introns except
     that its last junction (first for '-') sits 3 bp away from the annotated site of t2's intron: that intron is unannotated, although it
@@ -780,7 +800,7 @@ def gene_valley_locus(w, gid, chrom, p, strand):
 
 ZOO_ALL = ("ambiguous_only", "twins", "contested", "intronic", "apa", "alt_terminal", "shifted_site", "shared_chain", "same_coords",
            "one_bp_exon", "lowmapq_two_exon", "mono_only", "gap_gene", "gene_valley", "odd_chroms",
-           "near_site_novel", "low_cov_novel", "two_exon_alt_polya", "dense_two_exon", "antisense_shared_exon", "micro_exon_sibling")
+           "near_site_novel", "low_cov_novel", "two_exon_alt_polya", "dense_two_exon", "antisense_shared_exon", "micro_exon_sibling", "mixed_strand_gene")
 ZOO_NO_TIES = tuple(z for z in ZOO_ALL if z != "twins")
 
 
@@ -944,6 +964,9 @@ def add_zoo(w, parts=ZOO_ALL):
         if "micro_exon_sibling" in parts and room(7500):
             micro_exon_sibling_locus(w, "ZMX" + tag, chrom, _free_pos(w, chrom), "+-"[ci % 2], ("after", "before")[(ci // 2) % 2])
             placed.add("micro_exon_sibling")
+        if "mixed_strand_gene" in parts and ci % 2 == 1 and room(7500):
+            mixed_strand_gene_locus(w, "ZMG" + tag, chrom, _free_pos(w, chrom))
+            placed.add("mixed_strand_gene")
         if "antisense_shared_exon" in parts and ci % 2 == 0 and room(8000):
             antisense_shared_exon_locus(w, "ZAS" + tag, chrom, _free_pos(w, chrom))
             placed.add("antisense_shared_exon")
